@@ -207,3 +207,47 @@ def check_C03(tier, seed):
     v.assumptions = ["scopes are subsets of the existing datasets (a scope naming only unknown datasets is reported separately)",
                      "ids <= 3, predicates <= 2, datasets <= 2, bounded depth"]
     return v.finish(rule=RULE_REPLAY)
+
+
+# ----------------------------------------------------------------------------
+# C06
+
+def rel_contents2():
+    """relationship contents over the two-entity universe {e1, e2}"""
+    return [content(1, p=(2, ["e2", "e1"])),
+            content(1, p=(1, ["e2"]), q=(1, ["e2"])),
+            content(0, d=True),
+            content(2, q=(1, ["e1"]), p=(2, ["e1"]))]
+
+
+def check_C06(tier, seed):
+    v = Verdict("C06", tier, seed)
+    v.wd = verif.workdir("C06")
+    sd = verif.spec_copy(v.wd)
+    binary = verif.build_harness(v.wd)
+    thorough = tier == "thorough"
+    tabs = "plain,eqlen" if thorough else "plain"
+    rc = rel_contents()
+    rq = [rc[1], rc[2], rc[4], rc[6]]
+    kinds = ("rel", "look", "past")
+    cl = classify_c03
+    c = rc if thorough else rq
+    # (a) one dataset: versions sharing one commit instant (in-batch), instants between commits (tick)
+    c2 = rel_contents2()
+    datahub_stage(v, sd, binary, "C06_batch", ds=["a"], ent=["e1", "e2"], preds=("p", "q"), contents=c2,
+                  max_batch=2, max_steps=3 if thorough else 2, acts=("store", "tick"), tables=tabs, kinds=kinds,
+                  limits=(0, 1), rotate=True, classify=cl(c2), invariants=CORE_INV + ["InIsTransposeOfOut"])
+    # (b) two datasets, all scopes, every past instant
+    datahub_stage(v, sd, binary, "C06_multi", ds=["a", "b"], ent=["e1", "e2", "e3"], preds=("p", "q"),
+                  contents=rq, max_batch=1, max_steps=3, acts=("store", "tick", "txn") if thorough else ("store", "tick"),
+                  tables=tabs, kinds=kinds, limits=(0, 1), rotate=True, classify=cl(rq))
+    # (c) deep sampled histories
+    datahub_stage(v, sd, binary, "C06_deep", ds=["a", "b"], ent=["e1", "e2", "e3"], preds=("p", "q"), contents=rc,
+                  max_batch=2, max_steps=8 if thorough else 6, acts=("store", "txn", "tick"), tables=tabs,
+                  kinds=kinds, limits=(0, 2), sample=True, seed=seed, rotate=True, fan=6 if thorough else 5,
+                  classify=cl(rc))
+    v.assumptions = ["each specification instant t is asked at three real instants: just after action t completed, "
+                     "exactly at the commit time of action t, and one nanosecond before the commit of action t+1",
+                     "relationship answers at past instants are compared as (start, predicate, related id) sets",
+                     "maintenance operations (dataset delete, compaction) are excluded here (C07, C12)"]
+    return v.finish(rule=RULE_REPLAY)
